@@ -77,7 +77,8 @@ static int gen_poly(Poly *P, int i, int quick) {
     switch (kind) {
         case 0: case 1: P->kind = "convex"; n = 3 + (int)vt_randn(10); if (make_loop(P->outer, n, lat0, lng0, r, 0.85, 0.4 + 0.6 * vt_rand01(), vt_rand01() * 6.28, rev)) return 1; break;
         case 2: case 3: P->kind = "star"; n = 8 + (int)vt_randn(33); if (make_loop(P->outer, n, lat0, lng0, r, 0.3, 1, 0, rev)) return 1; break;
-        case 4: P->kind = "needle"; n = 4 + 2 * (int)vt_randn(3); if (make_loop(P->outer, n, lat0, lng0, r, 0.9, 0.002 + 0.05 * vt_rand01(), vt_rand01() * 6.28, rev)) return 1; target *= 8; break;
+        case 4: { P->kind = "needle"; n = 4 + 2 * (int)vt_randn(3); int ax = (int)vt_randn(4);   /* a quarter each: along a parallel, along a meridian (bounding box as thin as the needle), two slanted */
+                  if (make_loop(P->outer, n, lat0, lng0, r, 0.9, 0.002 + 0.05 * vt_rand01(), ax == 0 ? 0.0 : ax == 1 ? M_PI_2 : vt_rand01() * 6.28, rev)) return 1; target *= 8; break; }
         case 5: { P->kind = "tiny"; int res = (int)vt_randn(16); r = edge_rads(res) * (0.05 + 0.5 * vt_rand01()); n = 3 + (int)vt_randn(5); if (make_loop(P->outer, n, lat0, lng0, r, 0.6, 1, vt_rand01() * 6.28, rev)) return 1; P->res = res; break; }
         case 6: case 7: { P->kind = "holes"; n = 6 + (int)vt_randn(20); if (make_loop(P->outer, n, lat0, lng0, r, 0.65, 1, 0, rev)) return 1; nh = 1 + (int)vt_randn(3); double a0 = vt_rand01() * 6.28;
                   for (int h = 0; h < nh; h++) { double a = a0 + h * 2.094 + 0.3 * (vt_rand01() - 0.5), d = r * (nh == 1 ? 0.25 * vt_rand01() : 0.3); int hn = 3 + (int)vt_randn(8);
